@@ -95,6 +95,12 @@ func FPC(w int, f float64) *Term {
 	return FPBits(64, math.Float64bits(f))
 }
 func StrC(s string) *Term {
+	if strTheory {
+		if len(s) > 250 {
+			panic(unsupported("string constant longer than 250 bytes at level K"))
+		}
+		return intern(&Term{K: KStr, W: 8 * (len(s) + 1), IsConst: true, S: s, Max: int64(len(s))})
+	}
 	return intern(&Term{K: KStr, IsConst: true, S: s, Max: int64(len(s))})
 }
 func Var(name string, k Kind, w int) *Term {
@@ -219,6 +225,16 @@ func Ite(c, a, b *Term) *Term {
 	if a == b {
 		return a
 	}
+	if a.K == KStr && b.K == KStr && a.W != b.W {
+		c2 := sCap(a)
+		if sCap(b) > c2 {
+			c2 = sCap(b)
+		}
+		a, b = sPad(a, c2), sPad(b, c2)
+		if a == b {
+			return a
+		}
+	}
 	if a.K != b.K || (a.K == KBV && a.W != b.W) {
 		panic(fmt.Sprintf("Ite: sort mismatch %v/%d vs %v/%d", a.K, a.W, b.K, b.W))
 	}
@@ -285,6 +301,16 @@ func Eq(a, b *Term) *Term {
 		case KStr:
 			return BoolC(a.S == b.S)
 		}
+	}
+	if a.K == KStr && a.W != b.W {
+		if a.IsConst && len(a.S) > sCap(b) || b.IsConst && len(b.S) > sCap(a) {
+			return FalseT
+		}
+		c2 := sCap(a)
+		if sCap(b) > c2 {
+			c2 = sCap(b)
+		}
+		a, b = sPad(a, c2), sPad(b, c2)
 	}
 	if a.K == KBool {
 		if a.IsConst {
@@ -627,11 +653,7 @@ func StrConcat(a, b *Term) *Term {
 	if !strTheory {
 		panic(unsupported("string concatenation of symbolic atoms"))
 	}
-	t := mk(KStr, 0, "str.++", a, b)
-	if a.Max >= 0 && b.Max >= 0 {
-		t.Max = a.Max + b.Max
-	}
-	return t
+	return sConcat(a, b)
 }
 func IntBin(op string, a, b *Term) *Term {
 	if a.IsConst && b.IsConst {
@@ -684,8 +706,8 @@ func sortOf(t *Term) string {
 		}
 		return "(_ FloatingPoint 11 53)"
 	case KStr:
-		if strTheory {
-			return "String"
+		if t.W > 0 {
+			return fmt.Sprintf("(_ BitVec %d)", t.W)
 		}
 		return "Str"
 	case KInt:
@@ -748,8 +770,10 @@ func (e *Emitter) ref(t *Term) string {
 			}
 			return fmt.Sprintf("((_ to_fp 11 53) #x%016x)", t.BV)
 		case KStr:
-			if strTheory {
-				return smtString(t.S)
+			if t.W > 0 {
+				h := strConstHex(t.S)
+				pad := t.W/4 - (len(h) - 2)
+				return "#x" + strings.Repeat("0", pad) + h[2:]
 			}
 			return fmt.Sprintf("slit%d", t.id)
 		}
@@ -766,7 +790,7 @@ func (e *Emitter) define(t *Term) {
 	}
 	e.done[t.id] = true
 	if t.IsConst {
-		if t.K == KStr && !strTheory {
+		if t.K == KStr && t.W == 0 {
 			fmt.Fprintf(&e.sb, "(declare-const slit%d Str)\n", t.id)
 			e.lits = append(e.lits, t)
 		}
@@ -782,6 +806,18 @@ func (e *Emitter) define(t *Term) {
 	}
 	for _, a := range t.Args {
 		e.define(a)
+	}
+	if t.Op == "strmk" {
+		if len(t.Args) == 1 {
+			fmt.Fprintf(&e.sb, "(define-fun n%d () %s %s)\n", t.id, sortOf(t), e.ref(t.Args[0]))
+			return
+		}
+		parts := make([]string, len(t.Args))
+		for i, a := range t.Args {
+			parts[len(t.Args)-1-i] = e.ref(a)
+		}
+		fmt.Fprintf(&e.sb, "(define-fun n%d () %s (concat %s))\n", t.id, sortOf(t), strings.Join(parts, " "))
+		return
 	}
 	if strings.HasPrefix(t.Op, "uf:") {
 		fn := "uf_" + t.Op[3:]
